@@ -447,7 +447,7 @@ pub fn main(a: &Args) {
                 rep.count("glr_trace_skipped_cyclic_grammar_fence", 1);
                 continue;
             }
-            let family = if rng.chance(0.4) { rng.range(1, 6) as u8 } else { 0 };
+            let family = if rng.chance(0.4) { rng.range(1, 7) as u8 } else { 0 };
             let text = if family > 0 { grammar_text(&g, family) } else { g.text() };
             let spec = SetSpec { glr, ps: if glr { None } else { Some(true) }, partial: rng.chance(0.2), ..Default::default() };
             let Some(t) = mk_target(&name, &text, &spec, &wd, &mut rep) else { continue };
